@@ -37,9 +37,16 @@ def gen_case(rng, nmax):
     else:  # any non-negative per-component terms: increasing, decreasing (like the intermediate family) or unordered
         pb = [rng.randint(0, 9) for _ in range(p)]
         pb = {"inc": sorted(pb), "dec": sorted(pb, reverse=True), "any": pb}[rng.choice(["inc", "dec", "dec", "any"])]
-    return {"n": n, "p": p, "m": m, "M": M, "Kb": str(Kb), "ca": rng.randint(0, 4), "cb": [rng.randint(0, 2)] * p,
-            "pa": rng.randint(0, 3), "pb": pb, "T": distinct_table(rng, n, p, rng.randint(2, 6)),
-            "P": [rng.sample(range(0, 14), p) for _ in range(n)]}
+    c = {"n": n, "p": p, "m": m, "M": M, "Kb": str(Kb), "ca": rng.randint(0, 4), "cb": [rng.randint(0, 2)] * p,
+         "pa": rng.randint(0, 3), "pb": pb, "T": distinct_table(rng, n, p, rng.randint(2, 6)),
+         "P": [rng.sample(range(0, 14), p) for _ in range(n)]}
+    if rng.random() < 0.2:
+        # weak dense anomalies: found through a detection penalty without per-component part, while EVERY column saving is below
+        # the sparse per-column penalty used for the subset — the best subset is then the single largest column (k >= 1)
+        Kb = rng.choice([7, 9, 12])
+        c.update(Kb=str(Kb), ca=rng.randint(0, 2), cb=[0] * p, pa=0, pb=[rng.choice([0, 20])] * p,
+                 T=[[None if e <= s_ else rng.sample(range(0, Kb), p) for e in range(n + 1)] for s_ in range(n + 1)])
+    return c
 
 
 def impl(case):
@@ -62,7 +69,16 @@ def impl(case):
                      point_penalty=ppen, collective_penalty_scale=scale, min_segment_length=case["m"],
                      max_segment_length=case["M"]).fit(X)
         y = det.predict(X)
-        d = det.transform(X)
+        lab = core._bits(case, 0, 3)
+        if lab:  # labels that are not unique: repeated column names, a sorted time index with repeated stamps — marking is by position
+            import pandas as pd
+
+            cols = (["a", "a", "b", "b", "a", "c"] if lab == 1 else list(range(p)))[:p]
+            idx = pd.DatetimeIndex(pd.to_datetime("2021-03-01") + pd.to_timedelta(np.arange(n) // 2, unit="D")) if lab == 2 else pd.RangeIndex(n)
+            Xf = pd.DataFrame(X, columns=cols, index=idx)
+            d = det.transform(Xf)
+        else:
+            d = det.transform(X)
         return {"outcome": "ok", "anoms": [(int(i.left), int(i.right)) for i in y["ilocs"]],
                 "cols": [[int(c) for c in cs] for cs in y["icolumns"]], "dense": [[int(v) for v in row] for row in d.to_numpy()],
                 "sparse_alpha": core.rat(float(2 * scale * np.log(n)))}
@@ -149,9 +165,19 @@ def impl_builtin(case):
     n, p = case["n"], case["p"]
     gv = case.get("saving") == "gvar"
     try:
-        det = MVCAPA(GaussianVarCost(param=(0.0, 1.0)) if gv else None,
+        swap = gv and core._bits(case, 12, 2) == 0
+        if swap:  # built around an L2 saving; the baseline cost is then replaced through set_params (one -> two parameters per variable)
+            from skchange.anomaly_scores import Saving
+            from skchange.costs import L2Cost
+
+            first = Saving(L2Cost(param=0.0))
+        else:
+            first = GaussianVarCost(param=(0.0, 1.0)) if gv else None
+        det = MVCAPA(first,
                      collective_penalty=case["cfam"], collective_penalty_scale=case["cs"], point_penalty=case["pfam"],
                      point_penalty_scale=case["ps"], min_segment_length=case["m"], max_segment_length=max(case["M"], case["m"]))
+        if swap:
+            det.set_params(collective_saving__baseline_cost=GaussianVarCost(param=(0.0, 1.0)))
         data, _ = core.fit_for(det, case, X, reps=1)
         data = core.prior_use(det, case, X, data)
         y = det.predict(data)
